@@ -157,10 +157,35 @@ async def _scenario(sim, case):
     sim.rec("fin", sim.now())
 
 
+TIES_NOT_REPLAYED = [0]
+
+
+def _ambiguous_tie(case, trace):
+    """Reset timer and context timer due at the same instant while BOTH firings are observable (always_callback, device
+    already off, last telegram a response): three callbacks at one instant.  Which timer ran first decides whether the
+    trace reads (n, n, 0) or (n, 0, 0); the deterministic monitor commits to one reading, so such a trace is checked by the
+    oracle only (counted in the evidence)."""
+    if not (case["kind"] == "b" and case["always"] and case["ctx"] and case["reset"] is not None):
+        return False
+    times = {}
+    for tok in trace:
+        f = tok.split(",")
+        if f[0] == "cb":
+            times[f[3]] = times.get(f[3], 0) + 1
+    return any(n >= 3 for n in times.values())
+
+
 def run_impl(case):
     trace, errors = devsim.run(_scenario, case)
     s = ";".join(trace + [f"err,{e}" for e in errors])
+    if not errors and _ambiguous_tie(case, trace):
+        TIES_NOT_REPLAYED[0] += 1
+        return {"out": s, "line": None}
     return {"out": s, "line": f"c42 monitor {cfg_str(case)} {s or '-'}", "expect": "accept"}
+
+
+def evidence_extra():
+    return {"ambiguous_timer_ties_checked_by_oracle_only": TIES_NOT_REPLAYED[0]}
 
 
 # ----------------------------------------------------------------------------------------------
